@@ -20,7 +20,10 @@ PoolQuick == {
   x, N("Sum", << x, One >>), N("Sum", << x, OneF >>), Call(ff, << One >>), Call(ff, << OneF >>),
   CSE0(Sxy), N("Sum", << CSE0(Sxy), B("Power", z, KI(2)) >>), CSE0(N("Product", << CSE0(Sxy), x >>)),
   Look(B("Sub", tt, x), "p"), N("Product", << Sxy, Sxy >>),
-  CallKw(gg, << x >>, << KwArg("k1", CSE0(Sxy)) >>) }
+  CallKw(gg, << x >>, << KwArg("k1", CSE0(Sxy)) >>),
+  \* a wrapper over OTHER variables: a result cached for one wrapper must never answer for another
+  \* (the driver frees every expression after its call, so addresses are reused)
+  CSE0(N("Sum", << z, One >>)) }
 PoolMore == {
   OneF, K(BoolV(TRUE)), CSE(Sxy, "pre", "pymbolic_expr"),
   Call(Look(oo, "p"), << y >>), B("Quotient", CSE0(Sxy), CSE0(Sxy)) }
